@@ -19,10 +19,20 @@ Physical framing
     random_layout(rng, small=True)
 
 Generator
-    random_file(rng, **opts) -> (bytes, FileModel)     FileModel: .records .index .logpasses .layout
-    LogPassModel: .channels .col_start .ncols .indirect .x_rc .spacing (signed Fraction in X units) .total
-                  .frames_per_record .matrix (list of rows of exact floats) .x (Fractions, one per frame)
-                  .x_records .extents [(start, end, first_frame, nframes)] .dfsr_pos .evenly_spaced .absent ...
+    random_file(rng, allow_be=True, two_files_p=0.2) -> (bytes, FileModel)
+    FileModel:    .data .layout .prs
+                  .records   [{'kind','type','name','start','end','len','logpass'}] every logical record in file order
+                  .index     [(start, lr_type, table name | None, kind)] every logical record that is not a data record
+                  .logpasses [LogPassModel]
+    LogPassModel: .channels [Channel(mnem, units, rc, samples, bursts)] .col_start .ncols .frame_size
+                  .indirect .x_rc .x_units .spacing (signed Fraction, X units) .spacing_declared/.spacing_units (entry blocks 8/9)
+                  .updown .data_type .neg70 .record_gaps .entry_blocks .absent_declared
+                  .frames_per_record .total
+                  .matrix    total x ncols exact floats; column of (channel c, sample sa, burst bu) = col_start[c] + sa*bursts + bu
+                  .x         one Fraction per frame (implied: X recorded in the frame's record + offset * spacing; explicit: channel 0)
+                  .x_records recorded X of each data record, .evenly_spaced
+                  .extents   [(start, end, first_frame, nframes)] byte extent of each data record (TIF marker .. end of last trailer)
+                  .dfsr_pos
 """
 import math
 import struct
